@@ -25,6 +25,8 @@ import GgrsModel.Proofs.DelayStep
 import GgrsModel.Proofs.LockstepNet
 import GgrsModel.Proofs.DropSpec
 import GgrsModel.Proofs.LockstepNetDrop
+import GgrsModel.Proofs.HostSpec
+import GgrsModel.Proofs.Demo
 
 namespace Ggrs.Spectator
 
@@ -245,3 +247,70 @@ example (s : P2P) (R : Nat → List (Input × InputStatus)) (n : Nat)
   ⟨⟨_, LkInvD_init s R n hq hst hc hdf, GlueInv_init s _ n (fun _ => rfl) ho hst (by rw [hq]; simp)⟩, hn⟩
 
 end Ggrs
+
+namespace Ggrs
+open Spectator
+
+/-- **C06 across host and spectator (the product, rollback-mode host, no disconnected players).** A
+host session and its spectator side by side (`Proofs/HostSpec.lean`), starting from a pair that
+satisfies the invariant (a freshly built host and spectator do: `C06_host_spectator_init`). Run ANY interleaving
+of the host's own steps (local inputs, calls with the game executing them, cell writes, arrivals
+of remote players' inputs), the spectator's `advance_frame` calls, and arrivals at the spectator —
+the next row, one the host has already offered to its spectator endpoints, carrying what the
+host's queues hold for that frame (what `C06_host_rows` and `C05_stream_intact` provide for the
+link). Then every row the spectator holds is, player by player, the host's stream of that player
+at that frame — the inputs the host's own confirmed timeline carries (`C01_timeline`) — never
+beyond the frame the host has offered (`C06_host_rows`: never beyond its confirmed frame); and the
+`n`-th frame a spectator call hands out carries exactly the `n`-th of these rows, in order, without
+gap or repeat (`AdvOk`), or the call fails with nothing consumed. -/
+theorem C06_spectator_replays_host_streams (x y : (P2P × TLState) × SpecSt) (h0 : ∃ gh, HSInv x gh)
+    (hrun : HSStar x y) (s' : Spectator) (res : Except GgrsError (List Request))
+    (hadv : y.2.1.advanceAfterPoll = .ok (s', res)) :
+    ∃ gh, SessInv y.1.1 gh y.1.2 [] ∧
+      (∀ f, f < y.2.2.1.length → ∀ h, h < y.1.1.sync.queues.length →
+        f < (gh.specs h).vals.length ∧ (y.2.2.1.getD f []).getD h 0 = (gh.specs h).vals.getD f 0) ∧
+      (y.2.2.1.length : Int) ≤ y.1.1.nextSpectatorFrame ∧
+      (∀ reqs, res = .ok reqs → AdvOk y.2.2.1 y.2.2.2 reqs) ∧
+      (∀ e, res = .error e → e = .notSynchronized ∨ (e = .predictionThreshold ∧ y.2.2.1.length ≤ y.2.2.2) ∨
+        (e = .spectatorTooFarBehind ∧ y.2.2.2 + SPECTATOR_BUFFER_SIZE < y.2.2.1.length)) := by
+  obtain ⟨gh, h⟩ := HSInv_run x y h0 hrun
+  obtain ⟨hok, herr⟩ := advanceAfterPoll_spec y.2.1 s' y.2.2.1 y.2.2.2 res h.spec hadv
+  exact ⟨gh, h.sess, h.rows, h.offered, fun reqs hr => (hok reqs hr).1, fun e he => (herr e he).2⟩
+
+/-- A freshly built host and a freshly built spectator satisfy the invariant of the product. -/
+theorem C06_host_spectator_init (a : P2P) (R : Nat → List (Input × InputStatus)) (n : Nat) (numPlayers : Nat) (host : Endpoint)
+    (mfb cs : Nat) (hnp : numPlayers > 0)
+    (hq : a.sync.queues = List.replicate n InputQueue.new) (hst : a.localConnectStatus = List.replicate n {})
+    (hc : a.sync.currentFrame = 0) (ho : a.outgoingLocalInputs = []) (hnsf : a.nextSpectatorFrame = 0) :
+    ∃ gh, HSInv ((a, ⟨0, R⟩), (Spectator.new numPlayers host mfb cs, [], 0)) gh := by
+  refine ⟨_, SessInv_init a R n hq hst hc, GlueInv_init a _ n (fun _ => rfl) ho hst (by rw [hq]; simp), ?_,
+    ⟨specRing_new numPlayers host mfb cs hnp, rfl, Nat.le_refl _⟩, ?_, ?_⟩
+  · show 0 ≤ a.nextSpectatorFrame; rw [hnsf]; exact Int.le_refl _
+  · intro f hf; simp at hf
+  · show ((([] : List (List Input)).length : Nat) : Int) ≤ a.nextSpectatorFrame
+    rw [hnsf]; simp
+
+end Ggrs
+
+namespace Ggrs
+
+/-- **Non-vacuity of the host/spectator product.** A freshly built host with a spectator endpoint and
+a freshly synchronized spectator satisfy the invariant, and the world contains the run it is meant
+for: the host simulates frame 0 with a prediction, receives the real input, rolls back, confirms
+frame 0 and offers it to its spectator endpoint (`next_spectator_frame = 1`); the row `[5, 9]` —
+read off the host's queues — arrives at the spectator, whose next call hands out exactly that row. -/
+theorem C06_product_nonvacuous :
+    (∃ gh, HSInv ((demoHost, ⟨0, fun _ => []⟩), (demoSpec, [], 0)) gh) ∧
+    (∃ t' n, HSStar ((demoHost, ⟨0, fun _ => []⟩), (demoSpec, [], 0)) ((demoH2, t'), (demoSpec2, [[5, 9]], n)) ∧ n = 1) ∧
+    demoH2.nextSpectatorFrame = 1 ∧
+    (getOk demoSpec1.advanceAfterPoll).2 = .ok [.advance [(5, .confirmed), (9, .confirmed)]] := by
+  refine ⟨?_, demo_hostspec_run _, demo_offered, demo_spec_row⟩
+  refine ⟨_, SessInv_init demoHost (fun _ => []) 2 rfl rfl rfl,
+    GlueInv_init demoHost _ 2 (fun _ => rfl) rfl rfl rfl, by decide, ?_, ?_, by decide⟩
+  · exact ⟨by
+      have := Spectator.specRing_new 2 (Endpoint.new [0, 1] 1 2 1 8 2000 500 60 none 78 0) 10 1 (by decide)
+      exact ⟨this.len, this.players, this.rows, this.width, this.held, this.fresh, this.lastRecv⟩, rfl, Nat.le_refl _⟩
+  · intro f hf; simp at hf
+
+end Ggrs
+
